@@ -1242,6 +1242,8 @@ class Frame(registering.StoriedRegistrar):
 
         frame = self.under #trace down
         while(frame): #while not below bottom
+            if frame in outline: #unders create loop
+                raise excepting.ResolveError("Outline unders create loop", self.name, frame.name)
             outline.append(frame)
             frame = frame.under
 
